@@ -97,7 +97,7 @@ PROPS['C13'] = dict(
     modules=['Vivid.Props.C13', 'Vivid.Tie.Registry'],
     gens=['registry'],
     engines=[dict(name='codec', only=r'ALLOC|DEST-MODIFIED|PANIC|FATAL|panic', must_hit=['truncated:err', 'corrupted:err', 'corrupted:ok', 'random:err', 'write:ok', 'write:err', 'memcap:65536',
-                                                                                          'rfl:u64s', 'rfl:strs', 'rfl:recs', 'rfl:nested', 'rfl:rec', 'rfl-truncated:err', 'rfl-hostile:err', 'rflinto:err', 'rflinto:ok'])],
+                                                                                          'wnil:err', 'wzero:nopanic', 'rfl:u64s', 'rfl:strs', 'rfl:recs', 'rfl:nested', 'rfl:rec', 'rfl-truncated:err', 'rfl-hostile:err', 'rflinto:err', 'rflinto:ok'])],
     rule=CODEC_RULE,
     trusted_base=COMMON_TRUST + ['runtime.MemStats.TotalAlloc as the allocation observation (budget 64 B per input byte + 16 MiB for the codec\'s own 65536-entry caps)'],
     assumptions=['no panic / no loop / no stack overflow are facts about the Go runtime: observed by the differential run (recover, child process), not provable in the model, whose decoder is total by construction',
@@ -122,7 +122,7 @@ for _pid, _only, _must in [
     ('C05', r'LIFECYCLE|LAUNCH-TWICE|RESTART-NO-LAUNCH|STALE-INSTANCE|PANIC|FATAL', ['ev:restarted', 'ev:zombie', 'ev:spawn-err:prelaunch']),
     ('C06', r'KILL-ONCE|CHILDREN-FIRST|NOT-RELEASED|HALF-STOPPED|PANIC|FATAL', ['ev:killed-event', 'ev:spawn-err:exists', 'ev:spawn-err:dead']),
     ('C08', r'DECIDE-TWICE|SUPERVISION-WHILE-STOPPING|PANIC|FATAL', ['ev:decide:1', 'ev:decide:2', 'ev:decide:3', 'ev:decide:4', 'ev:decide:5', 'ev:decide:6', 'matrix:', 'escal:kindM1:depth1', 'escal:kindM2:depth1', 'escal:kindM2:depth2']),
-    ('C09', r'STAYS-PAUSED|HALF-STOPPED|NO-ANSWER|PANIC|FATAL', ['ev:restarted', 'ev:zombie', 'ev:decide:5', 'ev:decide:2', 'ev:decide:4', 'escal:kindM1:depth1', 'escal:kindM2:depth1', 'escal:kindM2:depth2', 'escal:dec5', 'escal:dec4', 'escal:dec2']),
+    ('C09', r'STAYS-PAUSED|HALF-STOPPED|NO-ANSWER|ZOMBIE-RUNS-USER-CODE|PANIC|FATAL', ['ev:restarted', 'ev:zombie', 'ev:decide:5', 'ev:decide:2', 'ev:decide:4', 'escal:kindM1:depth1', 'escal:kindM2:depth1', 'escal:kindM2:depth2', 'escal:dec5', 'escal:dec4', 'escal:dec2']),
     ('C19', r'ES-TABLES|EVENT-TWICE|EVENT-NOT-SUBSCRIBED|EVENT-MISSED|PANIC|FATAL', ['ev:es-sub', 'ev:es-unsub', 'ev:es-unsuball', 'ev:es-pub-with-subscribers']),
 ]:
     PROPS[_pid] = dict(
@@ -150,7 +150,7 @@ PROPS['C20'] = dict(
     modules=['Vivid.Props.C20', 'Vivid.Props.C19C20Global'],
     gens=[],
     engines=[dict(name='actorsys', only=r'JOB-SURVIVES-OWNER|JOB-KEY-COLLISION|CANCEL-UNKNOWN|PANIC|FATAL', must_hit=['ev:sched-once', 'ev:sched-loop', 'ev:cancel:ok', 'ev:cancel:notfound', 'ev:sched-clear', 'ev:cron-invalid', 'sched-scenario']),
-             dict(name='schedrt', nomodel=True, must_hit=['rt:once', 'rt:loop-cancel', 'rt:owner-restarted', 'rt:owner-killed'])],
+             dict(name='schedrt', nomodel=True, must_hit=['rt:once', 'rt:loop-cancel', 'rt:owner-restarted', 'rt:owner-killed', 'rt:fired-then-clear', 'rt:fired-then-killed', 'rt:fired-then-restarted'])],
     rule=AS_RULE + ' Scheduler scenarios: Once / Loop / Cron(valid|invalid) / Cancel / Clear with shared and reused references, references and actor names containing ":", kills and supervised restarts in between (delays of an hour: registries compared, nothing fires). '
          'schedrt: seven real-time scenarios against go-quartz with a 40 ms unit and one-sided assertions (Once exactly once and not early, Loop stops after Cancel, nothing after Cancel / owner kill / owner restart, no dead letters, unknown Cancel, invalid cron), a failure is re-run twice in isolation before it is reported.',
     trusted_base=AS_TRUST + ['go-quartz (job queue, triggers, cron parser, 100 ms outdated threshold) and the wall clock: observed, not modelled beyond a keyed job table'],
@@ -176,8 +176,10 @@ FUT_T = "k0>exit k0>k1 k1>k2 k2>k3 k3>k4 k4>k5 k5>exit p0>exit p0>p1w p1w>p1 p1>
 PROPS['C04'] = dict(
     modules=['Vivid.Props.C04'],
     gens=[],
-    engines=[dict(name='future', must_hit=['t:' + t for t in FUT_T] + ['variant:fixed'])],
-    rule='future: the real future.Future under the fine baton (every statement of close() and PipeTo and the blocking receive of Result are scheduling points). Thread sets of completers (reply / error / timeout-Close), '
+    engines=[dict(name='future', must_hit=['t:' + t for t in FUT_T] + ['variant:fixed']),
+             dict(name='askrt', nomodel=True, must_hit=['ask:reply', 'ask:timeout', 'ask:late-reply', 'ask:close', 'ask:asker-dies-1-0', 'ask:asker-dies-3-0', 'ask:asker-dies-1-1', 'ask:asker-dies-1-3', 'ask:asker-dies-2-3', 'ask:asker-dies-3-1', 'ask:asker-restarts'])],
+    rule='askrt (monitor only, real system, real time; a failure is re-run twice before it is reported): Ask answered / timed out / answered late / closed by the caller / asker killed with 1, 3 and 2-of-5 Asks outstanding / asker stopped by its supervisor: own reply, prompt actor-dead error, outcome never changes afterwards, nothing left in the future registry. '
+         'future: the real future.Future under the fine baton (every statement of close() and PipeTo and the blocking receive of Result are scheduling points). Thread sets of completers (reply / error / timeout-Close), '
          'PipeTo callers (one forwarder each) and Result waiters: the finding\'s own replay, exhaustive DFS over six small sets (budgeted), seeded random schedules of 2-7 threads; after every step closed / done / registered forwarders / '
          'forwarders told (final vs unwritten result) / closer runs / program point of every goroutine are compared with the model. Every case is a distinct schedule.',
     trusted_base=COMMON_TRUST + ['baton scheduler + yield placement in future.go', 'the forwarder mutex section of PipeTo/close is atomic (sync.Mutex)'],
@@ -205,7 +207,7 @@ PROPS['C14'] = dict(
     gens=[],
     engines=[dict(name='framing', must_hit=['cut', 'undecodable', 'invalid-length']),
              dict(name='sendloop', must_hit=['op:break', 'op:fin', 'op:down', 'op:up', 'limit:0', 'limit:1', 'limit:2']),
-             dict(name='remote', nomodel=True, must_hit=['rm:refused', 'rm:recover', 'rm:cut-mid', 'rm:cut-prefix', 'rm:cut-mid-limit0', 'rm:stall'])],
+             dict(name='remote', nomodel=True, must_hit=['rm:refused', 'rm:recover', 'rm:cut-mid', 'rm:cut-prefix', 'rm:cut-mid-limit0', 'rm:stall', 'rm:flood-limit0', 'rm:flood'])],
     rule='framing: streams cut after every byte offset (inside a prefix, inside a body, between frames), frames with invalid length or undecodable payload: events compared with the model receiver. '
          'sendloop: the real Mailbox.Enqueue / ExponentialBackoff.Try in a real system against a harness-owned peer that accepts, refuses (down), resets the connection (break) and returns (up): per Tell sent/dead, and at the end '
          'the peer\'s received sequence, the dead letters and the number of accepted connections, compared with the model for budgets 0..2. remote (monitor only): refused peer -> exactly one dead letter per message, Tell latency; '
